@@ -51,13 +51,13 @@ fn numerals(line: &str) -> Vec<i64> {
     out
 }
 
-/// a string constant made of letters, digits and blanks only (any script) needs no escaping in any
+/// a string constant made of ASCII letters, digits and blanks only needs no escaping in any
 /// sensible concrete syntax: the listing must contain it verbatim (the listing is made from what the
 /// LOADER produced, `p` from the independent decoder - a loader that damages text shows here)
 fn plain_strings_shown(ctx: &mut Ctx, origin: &str, p: &Prog, listing: &str) {
     for (i, c) in p.consts.iter().enumerate() {
         if let Const::Str(t) = c {
-            if t.is_empty() || !t.chars().all(|ch| ch.is_alphanumeric() || ch == ' ') { continue }
+            if t.is_empty() || !t.chars().all(|ch| ch.is_ascii_alphanumeric() || ch == ' ') { continue }
             ctx.count("plain_strings_looked_up", 1);
             if !listing.contains(t.as_str()) {
                 ctx.violation("listing/string-constant-not-shown", "a string constant of letters and digits does not appear verbatim in the listing",
@@ -122,6 +122,23 @@ pub fn neighbourhood(ctx: &mut Ctx, origin: &str, p: &Prog) {
     ctx.count("listings", 1);
     ctx.nontrivial(base.as_bytes());
     plain_strings_shown(ctx, origin, p, &base);
+    // syntax-agnostic: the listing of the LOADED file is the listing of the program the file denotes
+    // (the repository's own Display applied to a Program built from the independent decoder's result)
+    if !pipeline::construct_convention_holds() { ctx.note("construct oracle off: the loader's in-memory code layout is not pool order on the canary programs") }
+    match if pipeline::construct_convention_holds() { pipeline::construct(p) } else { Err(String::new()) } {
+        Ok(c) => {
+            ctx.count("listing_vs_listing_of_denoted_program", 1);
+            let want = format!("{}", c);
+            if want != base {
+                let at = want.chars().zip(base.chars()).position(|(x, y)| x != y).unwrap_or(want.len().min(base.len()));
+                let lo = at.saturating_sub(60);
+                ctx.violation("listing/differs-from-listing-of-denoted-program", "the listing of the loaded file is not the listing of the program the file denotes",
+                    json!({"origin": origin, "listing_near_difference": base.chars().skip(lo).take(200).collect::<String>(), "denoted_near_difference": want.chars().skip(lo).take(200).collect::<String>(),
+                           "bytes": codec::write(p).len(), "bytes_hex": codec::hex(&codec::write(p)[..codec::write(p).len().min(400)])}));
+            }
+        }
+        Err(_) => ctx.count("denoted_program_not_constructible", 1),
+    }
     method_extents_shown(ctx, origin, p, &base);
     let mut seen: HashMap<u64, usize> = HashMap::new();
     let ns = bc::neighbours(p);
